@@ -186,7 +186,7 @@ class Framer(tasking.Tasker):
         Force exit if not done
         Called by Razer Actor when razing insular auxes from frame
         """
-        if not self.done:
+        if self.active:  # still entered, also when it already said done
             console.profuse("Force exiting '{0}'\n".format(self.name))
             self.exitAll()
 
